@@ -147,6 +147,13 @@ func init() {
 			e.call(fr, pos, a[0], nil)
 			return term.Const(64, ^uint64(0))
 		},
+		rtPkg + "SetDir": func(e *Engine, _ *frame, _ token.Pos, a []Value) Value {
+			if e.dirs == nil {
+				e.dirs = map[string][]Value{}
+			}
+			e.dirs[a[0].(string)] = e.sliceElems(a[1])
+			return nil
+		},
 		rtPkg + "SetCwd": func(e *Engine, _ *frame, _ token.Pos, a []Value) Value {
 			e.cwd = a[0].(string)
 			return nil
@@ -191,6 +198,11 @@ func init() {
 		"(*sync.WaitGroup).Done":    func(e *Engine, _ *frame, _ token.Pos, a []Value) Value { e.wgAdd--; return nil },
 		"(*sync.WaitGroup).Wait":    wgWait,
 		"os.IsNotExist":             osIsNotExist,
+		"os.Lstat":                  osStat,
+		"os.Stat":                   osStat,
+		"os.Open":                   osOpen,
+		"(*os.File).Readdirnames":   osReaddirnames,
+		"(*os.File).Close":          func(e *Engine, _ *frame, _ token.Pos, a []Value) Value { return Iface{} },
 		"os.Exit":                   func(e *Engine, _ *frame, _ token.Pos, a []Value) Value { panic(exitPanic{asT(a[0])}) },
 		"os.Getwd":                  func(e *Engine, _ *frame, _ token.Pos, a []Value) Value { return Tuple{e.cwd, Iface{}} },
 		"runtime.GOMAXPROCS":        func(e *Engine, _ *frame, _ token.Pos, a []Value) Value { return cint(4) },
@@ -985,4 +997,82 @@ func (e *Engine) kernelCoverage(total *term.T) {
 	}
 	e.obligation(term.Eq(covered, total), "dispatch: every byte of the buffer is covered", false)
 	e.res.Reached[fmt.Sprintf("kernels:simd=%v,scalar=%v", simd != nil, scalar != nil)]++
+}
+
+// ---- modelled directory listing (filepath.Glob) ----
+
+func (e *Engine) notExistErr() Value {
+	for _, pn := range []string{"io/fs", "internal/oserror"} {
+		if pkg := e.prog.ImportedPackage(pn); pkg != nil {
+			if g := pkg.Var("ErrNotExist"); g != nil {
+				return *e.global(g)
+			}
+		}
+	}
+	return Iface{}
+}
+
+func (e *Engine) dirInfo() Value {
+	pkg := e.prog.ImportedPackage(strings.TrimSuffix(rtPkg, "."))
+	if pkg == nil || pkg.Type("DirInfo") == nil {
+		panic(unsupported("zzverifrt.DirInfo not available"))
+	}
+	return Iface{T: pkg.Type("DirInfo").Type(), V: Struct{}}
+}
+
+// osStat: a modelled directory exists; a path dir/name exists iff name equals
+// one of the directory's entries (decided by forking on symbolic names).
+func osStat(e *Engine, fr *frame, _ token.Pos, a []Value) Value {
+	e.note("model:directory-listing")
+	if p, ok := a[0].(string); ok {
+		if _, isDir := e.dirs[p]; isDir {
+			return Tuple{e.dirInfo(), Iface{}}
+		}
+	}
+	pb := strBytes(a[0])
+	for dir, names := range e.dirs {
+		prefix := dir + "/"
+		if len(pb) <= len(prefix) {
+			continue
+		}
+		isPrefix := term.True
+		for i := 0; i < len(prefix); i++ {
+			isPrefix = term.BAnd(isPrefix, term.Eq(pb[i], term.Const(8, uint64(prefix[i]))))
+		}
+		if isPrefix.IsFalse() {
+			continue
+		}
+		rest := mkStr(pb[len(prefix):])
+		for _, n := range names {
+			if e.branch(term.BAnd(isPrefix, e.strEq(rest, n)), "stat") {
+				return Tuple{e.dirInfo(), Iface{}}
+			}
+		}
+	}
+	return Tuple{Iface{}, e.notExistErr()}
+}
+
+func osOpen(e *Engine, fr *frame, _ token.Pos, a []Value) Value {
+	p, ok := a[0].(string)
+	if !ok {
+		panic(unsupported("os.Open of a symbolic path"))
+	}
+	if _, isDir := e.dirs[p]; !isDir {
+		return Tuple{(*Value)(nil), e.notExistErr()}
+	}
+	cell := new(Value)
+	*cell = Opaque{"dir:" + p}
+	return Tuple{cell, Iface{}}
+}
+
+func osReaddirnames(e *Engine, fr *frame, _ token.Pos, a []Value) Value {
+	f := a[0].(*Value)
+	o, ok := (*f).(Opaque)
+	if !ok || !strings.HasPrefix(o.What, "dir:") {
+		panic(unsupported("Readdirnames on an unmodelled file"))
+	}
+	names := e.dirs[strings.TrimPrefix(o.What, "dir:")]
+	out := make([]Value, len(names))
+	copy(out, names)
+	return Tuple{out, Iface{}}
 }
